@@ -70,6 +70,8 @@ func (x *Exec) resolveTypeExpr(pkg string, e ast.Expr) types.Type {
 		}
 	case *ast.InterfaceType:
 		return types.NewInterfaceType(nil, nil)
+	case *ast.MapType:
+		return types.NewMap(x.resolveTypeExpr(pkg, n.Key), x.resolveTypeExpr(pkg, n.Value))
 	case *ast.Ident:
 		for _, sc := range []*ssa.Function{x.tscope, x.curFn} {
 			if sc == nil {
